@@ -128,8 +128,11 @@ func c17(x *ctx) {
 						if shadow && nv == 0 {
 							continue
 						}
-						for _, nest := range []string{"none", "inner-reads", "inner-shadows"} {
-							if nest != "none" && (nv == 0 || (!thorough && form == "brace")) {
+						for _, nest := range []string{"none", "inner-reads", "inner-shadows", "forward-ref"} {
+							if nest != "none" && nest != "forward-ref" && (nv == 0 || (!thorough && form == "brace")) {
+								continue
+							}
+							if nest == "forward-ref" && !thorough && shadow {
 								continue
 							}
 							var sb strings.Builder
@@ -186,10 +189,22 @@ func c17(x *ctx) {
 								if len(want) > 0 && want[0] != "" {
 									pr(vars[0], want[0], "outer-param-after-shadowing-inner", true)
 								}
+							case "forward-ref":
+								// resolves only in a later analysis round: the class is defined below the block
+								line("zfw = Pointq.new(loc)")
+								pr("loc", "Symbol", "block-local-after-forward-ref", true)
 							}
 							line(close)
 							pr(outer, "Float", "outer-var-after", true)
 							pr("loc", "Unknown", "block-local-after", true)
+							if nest == "forward-ref" {
+								pr("zfw", "Unknown", "second-block-local-after", true)
+								line("class Pointq")
+								line("  def initialize(a)")
+								line("    @a = a")
+								line("  end")
+								line("end")
+							}
 							progs = append(progs, prog{sb.String(), probes,
 								fmt.Sprintf("%s#%s:nv=%d:%s:shadow=%v:%s", rv.class, name, nv, form, shadow, nest)})
 						}
